@@ -131,7 +131,7 @@ fn oracle(c: &ConcCase) -> Verdict {
     // (run on a worker thread under the deadline as well: a call that blocks even when run alone is a deadlock, not a hang of the check)
     let key = format!("C17/{:?}", c.ps.scheme);
     if HANGS.load(Ordering::SeqCst) >= 5 { return fail_key(format!("{key}/deadlock"), "earlier runs blocked; not executing further schedules"); }
-    let deadline = Duration::from_secs(if HANGS.load(Ordering::SeqCst) > 0 { 1 } else { 20 });
+    let deadline = Duration::from_secs(if HANGS.load(Ordering::SeqCst) > 0 { 2 } else { 60 });
     let mut reference: Vec<Res> = vec![];
     for (i, ops) in c.threads.iter().enumerate() {
         let sh = Arc::new(mk_shared(&c.ps, &inp.sk)); let inp2 = inp.clone(); let ops2 = ops.clone(); let e = c.ps.entropy.wrapping_add(1000 + i as u64);
